@@ -7,6 +7,8 @@ package main
 
 import (
 	"fmt"
+	"os"
+	"runtime/pprof"
 	"strings"
 	"time"
 
@@ -116,15 +118,30 @@ func (r *runner) rebuild(f *follower, valid []func() *Built) *follower {
 
 func main() {
 	c := hx.NewCtx("C02")
+	if pf := os.Getenv("C02_PROF"); pf != "" { // development aid: CPU profile of the harness process
+		f, err := os.Create(pf)
+		hx.Must(err)
+		hx.Must(pprof.StartCPUProfile(f))
+		defer pprof.StopCPUProfile()
+	}
 	or := hx.StartOracle(c.OraclePath)
 	defer or.Close()
 	r := &runner{c: c, or: or, maxTampers: 90}
-	budget := 34 * time.Second
+	budget := 22 * time.Second
 	if c.Thorough() {
 		r.maxTampers = 1 << 30
 		budget = 15 * time.Minute
 	}
-	rule := "model-valid blocks (hashes from the extracted model) accepted by SanityCheckNewHeight+Store on both state backends; every single-field tampering rejected with raw database digest and Reader snapshot unchanged; juno's TransactionHash/BlockHash/commitments equal the evaluated model terms"
+	classKeyFn = func(id uint64) *felt.Felt {
+		sc := sierraClass(id)
+		mh := modelClassHash(or, sc)
+		if jh, err := sc.Hash(); err != nil || !jh.Equal(&mh) {
+			c.Violation("class-hash:generated", fmt.Sprintf("Sierra definition %d of the block generator: juno's class hash %s (%v), model %s", id, &jh, err, &mh),
+				replayCase{Kind: "class-hash", Pos: int(id)}, true)
+		}
+		return &mh
+	}
+	rule := "model-valid blocks (hashes and class keys from the extracted model) accepted by SanityCheckNewHeight+Store on both state backends; every single-field tampering (incl. every field of a delivered Sierra class) rejected with raw database digest and Reader snapshot unchanged; the verdict of the extracted accept_ev (hash terms evaluated with juno's primitives) equals juno's verdict on every valid, tampered, probed and fixture block; juno's TransactionHash/BlockHash/commitments/class hash equal the evaluated model terms"
 	if c.ReplayIn != "" {
 		var rc replayCase
 		c.LoadReplay(&rc)
@@ -132,6 +149,8 @@ func main() {
 			r.staleOldRoot()
 		} else if rc.Kind == "class-fixture" {
 			r.classFixtures()
+		} else if rc.Kind == "class-hash" {
+			r.classHashes()
 		} else if rc.Kind == "crossing" {
 			r.crossingRegression()
 		} else if rc.Kind == "fixture" || rc.Kind == "probe" {
@@ -149,11 +168,19 @@ func main() {
 		}
 		c.Finish(rule)
 	}
-	r.staleOldRoot()
-	r.crossingRegression()
-	r.fixtures()
-	r.classFixtures()
-	r.runTour(c.Seed)
+	phases := map[string]float64{}
+	timed := func(name string, f func()) {
+		t0 := time.Now()
+		f()
+		phases[name] = time.Since(t0).Seconds()
+	}
+	c.Extra["phase_seconds"] = phases
+	timed("stale-old-root", r.staleOldRoot)
+	timed("version-crossing", r.crossingRegression)
+	timed("fixtures", r.fixtures)
+	timed("class-fixtures", r.classFixtures)
+	timed("class-hash-tie", r.classHashes)
+	timed("tour", func() { r.runTour(c.Seed) })
 	rng := hx.NewRNG(c.Seed)
 	start := time.Now()
 	chains := 0
@@ -165,5 +192,9 @@ func main() {
 		}
 	}
 	c.Extra["chains"] = chains
+	phases["random-chains"] = time.Since(start).Seconds()
+	c.Extra["term_evaluator"] = map[string]any{"subterm_cache_hits": evaluator.Hits, "subterm_evaluations": evaluator.Miss,
+		"model_requests": converseCalls, "model_seconds_total": converseTime.Seconds(), "of_which_term_evaluation_seconds": evalTime.Seconds()}
+	pprof.StopCPUProfile()
 	c.Finish(rule)
 }
